@@ -21,7 +21,7 @@ suite green (288/288):
   refactor produces: an off-by-one at a threshold, a dropped state guard, two
   swapped fields, one DFA cell, ...). Mutants that turned out to be equivalent
   were removed, not kept as "misses".
-* `seeded/<ID>/`, `seeded/<ID>b/`, `seeded/<ID>c/` - three rounds of one change per property, each made by an **independent agent** that
+* `seeded/<ID>/`, `seeded/<ID>b/`, `seeded/<ID>c/`, `seeded/<ID>d/` - four rounds of one change per property, each made by an **independent agent** that
   was given only the property text and a scratch worktree (nothing from
   `/verif`), asked for a change that needs something specific to manifest (an
   interleaving, a fault at a particular point, a multi-step sequence, an unusual
@@ -80,6 +80,29 @@ First contact, quick tier: 10 caught at once (C01c C04c C05c C08c C09c C12c C14c
 | C19c | CRA derived key cached per salt: a later challenge with another iteration count/key length is signed with the stale key | one challenge per authenticator | the authenticator is re-used for four further challenges (iterations+1, keylen+1, other challenge, same again) |
 | C20c | tampered / foreign progressive results still reach `on_progress` | progressive results were not generated under encryption | calls with `on_progress`: genuine chunk recovered exactly; every 2nd single-byte alteration, swapped procedure URI and foreign key must not reach the handler |
 
+A **fourth round** (`seeded/<ID>d/`) asked for a clause or a dimension of the scope (one role, one framework, a non-default
+option value, a rarely used API variant, two cooperating sites) that the first three seeds leave untouched. First contact,
+quick tier, saved replays off: 10 caught at once (C01d C03d C06d C09d C10d C11d C13d C16d C17d C19d), 10 missed:
+
+| prop | seeded change needs | gap in my check | strengthening |
+|---|---|---|---|
+| C02d | one class-level pass-through masker shared by all connections of the process: two connections whose reads interleave corrupt each other | one connection per case | "twins": the same stream into two connections of one process with interleaved reads, both judged against the model |
+| C04d | UNSUBSCRIBE recorded as pending only after `transport.send()` returned: a reply delivered from inside `send()` (in-process router) is unmatched | replies always came after the API call returned | enumerated synchronous-router job: for all six request kinds the reply (success/ERROR) is delivered while `send()` is running |
+| C05d | reserved close code 2999 accepted (`range()` end), echoed back on the wire | the machine's illegal codes stopped at 1015/5000; and a clean close after an illegal code hides behind the open C05 finding - only the wire check can tell | illegal codes 2999, 1016, 2000, 1100, 0, 65535 added (with `echoCloseCodeReason` the reply must not carry them) |
+| C07d | client accepts a server-selected subprotocol that is a *substring* of its joined request header | the mutation used one unrelated name | adjacent names: prefix, suffix, substring, the joined list, other case |
+| C08d | PUBLISH `eligible: []` ("nobody") dropped on re-marshal | the fixed-point oracle normalised empty lists away (C03 too) | empty black-/whitelists are distinct from absent ones in C03's comparison and in C08's re-marshal check |
+| C12d | refused over-limit send keeps the deflate context (same site as C16c) | C12 generates no size limits | assigned to C16 (`meta.json: checked_by`), which decides the send-side limit clause |
+| C14d | `stop()` while joined does not mark the component as stopping: if the router drops the connection instead of answering the GOODBYE, the component reconnects | the router always answered the GOODBYE that `stop()` causes | the scripted router may drop the connection instead |
+| C15d | receive-side masker kept across frames when the next frame carries the same key (never rewound) | C15 exercised the maskers and the send-side policy only (C02 caught this one: its scripted peer uses one key) | receive-side job: consecutive frames with the same / other / zero key, all length classes, fragments, drawn read chunking |
+| C18d | forwarded traceback merged with `dict(traceback=tb, **kwargs)`: an error that already carries a `traceback` kwarg is lost | that key was excluded from generated kwargs | application errors carrying their own `traceback` kwarg (str or list) - which exposed a genuine defect: `str(ApplicationError)` mutated the kwargs (fixed, §5.1) |
+| C20d | final YIELD encrypted under the registration's URI pattern instead of the called procedure | exact registrations only | prefix registration with the concrete procedure in `INVOCATION.details.procedure` |
+
+Round 4 also produced two mutants that do not terminate (C15d on the receive path, C02d under interleaving): a check
+that hangs is useless, so every case / machine step / enumeration block now runs under a CPU-time guard (150 s of CPU of
+the worker process, not wall clock; virtual clocks make a normal case a matter of milliseconds). A stall is reported as
+a violation `<ID>|stall|...` naming the innermost library frame, is not shrunk, and a job-level time budget remains as a
+backstop (inconclusive, never a violation).
+
 Two more general lessons went into the harness: (i) a seeded change that makes a failure depend on the library's own
 randomness (`os.urandom` nonce, `random.seed()` in factories) showed up as a Hypothesis *Flaky* report, i.e. exit 2; the
 randomness is now part of the drawn case where it matters (C14 jitter, C19 SCRAM nonce), and an oracle failure that was
@@ -94,7 +117,9 @@ and treat it as outside the statement: delivered events, the announced status an
 are identical under every split; only the moment of the TCP drop *after* the connection was failed differs
 (the schedule comparison therefore ignores the drop flag once the verdict is announced).
 
-After strengthening, `tools/sensitivity.py` (quick tier) gives the table below;
+For every caught seeded change one shrunk counter-example is kept as `replays/<ID>/seeded_<name>.json` (it passes on
+the unchanged tree and is re-run first by every check), except where the failure depends on state shared between cases
+of one worker process. After strengthening, `tools/sensitivity.py` (quick tier, saved replays switched off) gives the table below;
 it is regenerated, not hand-edited. The thorough tier is a superset of the
 quick tier's jobs.
 
@@ -106,6 +131,15 @@ def main():
     s = open(p).read()
     if MARK in s:
         s = s[:s.index(MARK)]
+    # refresh the table of repaired defects (section 5.1) from known_findings.json
+    try:
+        kf = json.load(open(os.path.join(HERE, "known_findings.json")))["findings"]
+        rows = "\n".join("| %s | `%s` | %s |" % (f["property"], f["commit"], f["what"].replace("|", "/")) for f in sorted((x for x in kf if x["status"] == "fixed"), key=lambda f: f["property"]))
+        a = s.index("| prop | commit | what failed |\n|---|---|---|\n") + len("| prop | commit | what failed |\n|---|---|---|\n")
+        b = s.index("\n\nNotes on individual repairs:", a)
+        s = s[:a] + rows + s[b:]
+    except (ValueError, KeyError):
+        pass
     s = s.rstrip() + "\n\n" + MARK + "\n\n" + NARRATIVE
     sens = os.path.join(HERE, "SENSITIVITY.md")
     if os.path.exists(sens):
